@@ -321,6 +321,14 @@ def infeasible_items(tier):
                         + f'resource room "Room" {{\n  efficiency {eff}\n}}\nresource dev "Dev" {{\n  efficiency 0.5\n  leaves annual 2025-01-08\n}}\n'
                         + f'task a "a" {{\n  effort 11h\n  allocate {alloc}\n  flags contiguous\n}}\n'
                         + f'task b "b" {{\n  effort 2h\n  allocate dev\n  depends a\n' + ("  flags contiguous\n" if "b" in flagged else "") + '}\n')
+    # the same kinds of trouble in a process that has NO standard error (sys.stderr is None): warnings have nowhere to go, the run
+    # must still end with unscheduled tasks, not with an exception out of the message handler
+    for name, sp in (("2-cycle", {"resources": R, "tasks": [T("a", deps=["b"]), T("b", deps=["a"]), T("c", deps=["b"])]}),
+                     ("overrun", {"dur": "1w", "resources": R, "tasks": [{"id": "a", "effort": 6000, "alloc": ["r1"]}, T("b", deps=["a"])]}),
+                     ("nobody", {"resources": R, "tasks": [{"id": "a", "effort": 120}, T("b", deps=["a"])]}),
+                     ("fine", {"resources": R, "tasks": [T("a"), T("b", deps=["a"])]})):
+        for alap in (False, True):
+            out.append({"kind": "spec", "name": f"no stderr: {name} alap={alap}", "spec": {**sp, "alap": alap}, "text": None, "no_stderr": True})
     add("macro missing args", text="macro two [ effort ${1} allocate ${2} ]\n" + base.replace("effort 90min", "${two}", 1))
     add("macro undefined", text=base.replace("effort 90min", "${nosuch}", 1))
     add("macro unterminated", text="macro bad [ effort 1h \n" + base)
@@ -346,7 +354,7 @@ def evaluate(item):
     text = to_text(item)
     observe.install_monitors()
     observe.reset_counters()
-    obs = observe.run_text(text)
+    obs = observe.run_text(text, no_stderr=bool(item.get("no_stderr")))
     r = {"k": render.key(item), "v": [], "nt": False, "s": observe.sig(obs), "tr": observe.MON["slotwalk"] + observe.MON["placements"]}
     err = obs.get("error")
     v = []
